@@ -142,8 +142,21 @@ def cmd_run(pkg, pysrc, cases, out):
     tt = enum_members(os.path.join(pysrc, "token_type.py"), "TokenType")
     tc = enum_members(os.path.join(pysrc, "token_channel.py"), "TokenChannel")
     ek = enum_members(os.path.join(pysrc, "error_kind.py"), "ErrorKind")
+    # call history: one large program first (a caller's earlier, unrelated call), and again every 500 cases; its
+    # result is not judged.  State kept by the binding between calls shows in the calls that follow.
+    big = "".join("data a%d; set b; x = %d; y = 'it''s'; run;\n" % (k, k) for k in range(6000))
+    def warm():
+        try:
+            ext._lex_program_from_str(big)
+        except BaseException:
+            pass
+    warm()
+    ncase = 0
     with open(cases, encoding="utf-8") as f, open(out, "w", encoding="utf-8") as w:
         for line in f:
+            ncase += 1
+            if ncase % 500 == 0:
+                warm()
             if not line.strip():
                 continue
             c = json.loads(line)
